@@ -24,12 +24,20 @@ for m in $MODS; do
     fi
   fi
 done
+H=$V/harness
+if [ -n "${VERIF_HARNESS_EXCLUDE:-}" ]; then
+  # development aid: build from a snapshot of the harness without some files (others are editing them)
+  rm -rf "$S/harness"; mkdir -p "$S/harness"
+  rsync -a $V/harness/ "$S/harness/"
+  for pat in $VERIF_HARNESS_EXCLUDE; do rm -f "$S/harness/"$pat*.go; done
+  H="$S/harness"
+fi
 {
   echo "go 1.26"
   echo "use ("
   echo "  $S/ro"
   for m in $MODS; do [ -d "$S/ro/$m" ] && echo "  $S/ro/$m"; done
-  echo "  $V/harness"
+  echo "  $H"
   echo "  $V/rosim"
   echo ")"
   echo "replace rosim v0.0.0 => $V/rosim"
@@ -40,5 +48,5 @@ done
 cat "$REPO"/go.work.sum $V/harness/extra.sum 2>/dev/null | sort -u > "$S/go.work.sum"
 RFLAG=""
 [ "$RACE" = "race" ] && RFLAG="-race"
-( cd $V/harness && GOWORK="$S/go.work" go1.26.8 test -c $RFLAG -tags verif -o "$S/worker.test" . ) > "$S/build.log" 2>&1 || { cat "$S/build.log" >&2; echo "harness build failed" >&2; exit 2; }
+( cd $H && GOWORK="$S/go.work" go1.26.8 test -c $RFLAG -tags verif -o "$S/worker.test" . ) > "$S/build.log" 2>&1 || { cat "$S/build.log" >&2; echo "harness build failed" >&2; exit 2; }
 exit 0
